@@ -15,6 +15,7 @@ thorough = tier == "thorough"
 sys.path.insert(0, pkgdir)
 import jsonlogic_rs  # noqa: E402  (the package under test)
 
+TRACE = os.environ.get("JLMC_TRACE")  # set when the parent re-runs a shard to localise a crash / hang
 PROG = os.environ.get("JLMC_PROG")
 _prog_fd = os.open(PROG, os.O_WRONLY) if PROG and os.path.exists(PROG) else None
 _ticks = 0
@@ -61,6 +62,21 @@ def fail(sub, case, expected, actual):
         res["violations"].append({"sub": sub, "case": case, "expected": expected, "actual": actual})
 
 
+def safe(x):
+    """make the result file strict JSON whatever the objects under test looked like"""
+    if isinstance(x, dict):
+        return {safe(k) if isinstance(k, str) else repr(k): safe(v) for k, v in x.items()}
+    if isinstance(x, (list, tuple, set)):
+        return [safe(v) for v in x]
+    if isinstance(x, float) and not math.isfinite(x):
+        return repr(x)
+    if isinstance(x, str):
+        return x.encode("utf-8", "backslashreplace").decode("utf-8")
+    if x is None or isinstance(x, (bool, int, float)):
+        return x
+    return repr(x)
+
+
 def strict_eq(a, b):
     """equality that keeps bool / int / float and list / tuple apart"""
     if type(a) is not type(b):
@@ -84,6 +100,9 @@ def describe(x):
 def run_case(sub, call_desc, fn, rule_text, data_text, post=None):
     """fn() is the call under test. Expected: post(json.loads(oracle ok text)) or ValueError."""
     tick()
+    if TRACE:
+        with open(TRACE, "w") as tf:
+            json.dump(safe({"python_call": call_desc, "sub": sub}), tf)
     res["leaves"] += 1
     res["evaluations"] += 1
     res["transitions"] += 1
@@ -236,21 +255,6 @@ finally:
         oracle.p.wait(timeout=5)
     except Exception:
         pass
-
-
-def safe(x):
-    """make the result file strict JSON whatever the objects under test looked like"""
-    if isinstance(x, dict):
-        return {safe(k) if isinstance(k, str) else repr(k): safe(v) for k, v in x.items()}
-    if isinstance(x, (list, tuple, set)):
-        return [safe(v) for v in x]
-    if isinstance(x, float) and not math.isfinite(x):
-        return repr(x)
-    if isinstance(x, str):
-        return x.encode("utf-8", "backslashreplace").decode("utf-8")
-    if x is None or isinstance(x, (bool, int, float)):
-        return x
-    return repr(x)
 
 
 res["hashes"] = sorted(set(safe(res["hashes"])))
